@@ -147,7 +147,7 @@ def gen_progx(rng, exotic, small=False, allow_nd=True):
     variant = rng.choice(sorted(PROG_VARIANTS))
     ml = 3 if small else 5
     r = rng.below(3)
-    nd = allow_nd and (not small) and rng.chance(0.5)  # a program that prints something different at every run
+    nd = allow_nd and rng.chance(0.3 if small else 0.5)  # a program that prints something different at every run
     if r == 0:
         return 'progx', (variant, gen_text(rng, exotic, ml, 3), None, nd)
     sin = (rng.choice(['str', 'file']), gen_text(rng, exotic, ml, 3))
@@ -776,6 +776,9 @@ def run(ctx, res):
                     parts = tuple(gen_part(rng, exotic) for _ in range(rng.randint(2, 4)))
                     kind, text, trans = 'concat', parts, None
                     buff = gen_buff(rng, whole_text(kind, text))
+                    if is_nd(kind, text):
+                        views = [rng.choice(['str', 'lines', 'file', 'write']) for _ in range(rng.randint(2, 4))]
+                        accs = [a for a in accs if a != 'freeze'][:rng.randint(0, 1)] + ['freeze'] + views
                 elif r < 27:  # program output: stdout / stderr, exit code ignored or not, with or without -stdin
                     kind, text = gen_progx(rng, exotic)
                     buff = gen_buff(rng, whole_text(kind, text))
@@ -785,6 +788,8 @@ def run(ctx, res):
                         if rng.chance(0.5):
                             views[0] = 'write'
                         accs = pre + ['freeze'] + views
+                        if rng.chance(0.6):
+                            trans = None  # the frozen program source itself is what is consumed
                 elif r < 32:  # MODEL -transformed-by run % cat -stdin S : concat [S, MODEL] as the program's stdin
                     kind = 'runin'
                     text = ((rng.choice(BASE_KINDS), gen_text(rng, exotic, 3, 3)), (rng.choice(['str', 'file']), gen_text(rng, exotic, 2, 3)))
